@@ -20,7 +20,20 @@ import (
 func TestVerifC16_ProcUnsafeFilter(t *testing.T) {
 	rapid.Check(t, func(t *rapid.T) {
 		key := "k3y-unsafe"
-		s := StartSession(t, SessionCfg{Args: []string{"--no-mouse", "--listen", "0.0.0.0:0", "--bind", "start:+execute-silent(echo $FZF_PORT > port2)"}, Input: []byte("a\nb\nc\n"), Env: []string{"FZF_API_KEY=" + key}, NoListen: true, Width: 60, Height: 10})
+		// which of --listen / --listen-unsafe is in force is decided by the last one given
+		mode := rapid.SampledFrom([]string{"plain", "plain", "unsafe-then-plain", "env-unsafe-then-plain", "plain-then-unsafe"}).Draw(t, "listenOptions")
+		largs := []string{"--listen", "0.0.0.0:0"}
+		env := []string{"FZF_API_KEY=" + key}
+		switch mode {
+		case "unsafe-then-plain":
+			largs = []string{"--listen-unsafe", "0.0.0.0:0", "--listen", "0.0.0.0:0"}
+		case "env-unsafe-then-plain":
+			env = append(env, "FZF_DEFAULT_OPTS=--listen-unsafe 0.0.0.0:0")
+		case "plain-then-unsafe":
+			largs = []string{"--listen", "0.0.0.0:0", "--listen-unsafe=0.0.0.0:0"}
+		}
+		unsafeListener := mode == "plain-then-unsafe"
+		s := StartSession(t, SessionCfg{Args: append(append([]string{"--no-mouse"}, largs...), "--bind", "start:+execute-silent(echo $FZF_PORT > port2)"), Input: []byte("a\nb\nc\n"), Env: env, NoListen: true, Width: 60, Height: 10})
 		defer s.Close()
 		port := 0
 		for i := 0; i < 1000 && port == 0; i++ {
@@ -64,10 +77,11 @@ func TestVerifC16_ProcUnsafeFilter(t *testing.T) {
 				adjacent = true
 			}
 		}
-		vstat.Case("C16/proc-unsafe-filter", body, unsafe >= 2, fmt.Sprintf("unsafe=%d", unsafe), fmt.Sprintf("adjacent=%v", adjacent))
+		vstat.Case("C16/proc-unsafe-filter", body, unsafe >= 2, fmt.Sprintf("unsafe=%d", unsafe), fmt.Sprintf("adjacent=%v", adjacent), "listen="+mode)
 		for _, c := range canaries {
-			if _, err := os.Stat(c); err == nil {
-				t.Fatalf("non-local listener without --listen-unsafe: the command of an action in %q was executed (%s exists)", body, filepath.Base(c))
+			_, err := os.Stat(c)
+			if err == nil && !unsafeListener {
+				t.Fatalf("non-local listener, options %q (the last one is not --listen-unsafe): the command of an action in %q was executed (%s exists)", largs, body, filepath.Base(c))
 			}
 		}
 	})
